@@ -1290,6 +1290,19 @@ func TestVerifC25(t *testing.T) { //nolint:gocognit,cyclop,maintidx
 		}
 		for k, list := range got {
 			if !claimed[k] {
+				// a peer-reflexive remote candidate is learned by the agent from an incoming STUN check (the real second
+				// peer of a situation history knows this peer's candidates from its descriptions), not from AddICECandidate
+				allPrflx := true
+				for _, c := range list {
+					if c.Type() != ice.CandidateTypePeerReflexive {
+						allPrflx = false
+					}
+				}
+				if allPrflx {
+					run.Count("agent_learned_peer_reflexive_candidate_from_network", 1)
+
+					continue
+				}
 				run.Violation("agent-extra", fmt.Sprintf("the agent holds %d remote candidate(s) %s that no AddICECandidate call of this batch describes: %s",
 					len(list), k, list[0].Marshal()), -1, map[string]any{"key": k, "candidate": list[0].Marshal(), "batch": b})
 			}
